@@ -14,8 +14,9 @@ R2  spec->code: TLC enumerates the property's argument grid (dims {-1,0,1,2,3,5}
     the slices with cap == len inside a canary arena, calls blas/gonum.Implementation in all four
     precisions (and the LAPACK routines) under recover and compares outcome class
     (returned / package panic / runtime.Error / foreign panic), operand bytes and canaries.
-    LAPACK (53 prologues incl. the drivers whose minimum lengths depend on job flags and on
-    min/max of the dimensions, nine also through lapack64) additionally gets a deterministic
+    LAPACK (84 prologues incl. the drivers whose minimum lengths depend on job flags and on
+    min/max of the dimensions, the norm routines whose work slice is needed for some norms only,
+    and auxiliaries with increment / index-slice rules; sixteen also through lapack64) additionally gets a deterministic
     boundary grid: every legal flag combination x shapes with dimensions 0..3 x lwork minimal and
     queried, every slice exactly minimal (accepted) and each slice in turn one element short
     (rejected, operands unchanged).
@@ -49,6 +50,11 @@ LAPACK = [
     ("drivers", ["Dgels", "Dgesvd", "Dsyev", "Dgeev", "Dgtsv", "Dptsv", "Dpbtrs", "Dpbtrf", "Dtbtrs"]),
     ("reductions+generators", ["Dgeqp3", "Dgebrd", "Dsytrd", "Dgehrd", "Dorgbr", "Dorgtr", "Dorghr", "Dormbr", "Dormhr"]),
     ("norms+condition+aux", ["Dlacpy", "Dlaset", "Dlange", "Dlansy", "Dlantr", "Dtrcon", "Dgecon", "Dpocon"]),
+    # norm routines whose work slice is needed for some norms only, and auxiliaries with increments / index slices
+    ("band+tridiagonal norms, aux", ["Dlansb", "Dlantb", "Dlangt", "Dlanst", "Dlangb", "Dlanhs", "Dlascl", "Dlaswp",
+                                     "Dlapmt", "Dlapmr", "Drscl", "Dlassq", "Dlasrt"]),
+    ("unblocked+tridiagonal", ["Dgeql2", "Dgerq2", "Dgehd2", "Dsytd2", "Dlauu2", "Dlauum", "Dpttrf", "Dpttrs", "Dptcon"]),
+    ("RQ+QL+band", ["Dgerqf", "Dorgql", "Dorg2l", "Dorgr2", "Dormr2", "Dpbtf2", "Dpbcon", "Dsterf", "Dlarfg"]),
 ]
 
 
